@@ -120,6 +120,12 @@ def main(argv):
             findings.extend(ex_findings)
         except Exception as e:
             broken.append('thorough stage failed: %s\n%s' % (e, traceback.format_exc()))
+    if tier == 'thorough' and not os.environ.get('RXCHECK_NESTED'):
+        try:
+            from . import selftest
+            extra['mutation_selftest'] = selftest.run(prop)
+        except Exception as e:
+            extra['mutation_selftest'] = {'error': str(e)}
     known, fixed = load_known()
     # de-duplicate findings over configs (same key, same verdict)
     uniq = {}
@@ -146,8 +152,9 @@ def main(argv):
     for f in new_viol:
         nrep += 1
         rp = os.path.join(VERIF, 'reports', '%s.%d.json' % (prop, nrep))
-        with open(rp, 'w') as fh:
-            json.dump(f.to_json(), fh, indent=1)
+        if not os.environ.get('RXCHECK_NESTED'):
+            with open(rp, 'w') as fh:
+                json.dump(f.to_json(), fh, indent=1)
         out.append('VIOLATION property=%s replay=%s' % (prop, rp))
         out.append('  rule %s: %s' % (f.full_key(), f.msg))
         out.append('  at %s (config %s)' % (f.loc, f.config))
@@ -200,8 +207,12 @@ def main(argv):
         'wall_s': round(time.time() - t0, 2),
         'violations': len(new_viol),
     }
-    with open(evid_path, 'w') as fh:
-        json.dump(evidence, fh, indent=1)
+    if not os.environ.get('RXCHECK_NESTED'):
+        with open(evid_path, 'w') as fh:
+            json.dump(evidence, fh, indent=1)
+    st = extra.get('mutation_selftest') if isinstance(extra, dict) else None
+    if st and st.get('missed'):
+        out.append('SELFTEST-MISS property=%s: kept seeded change(s) %s are no longer reported by this check' % (prop, st['missed']))
     print('\n'.join(out))
     print('%s tier=%s obligations=%d discharged=%d known=%d violations=%d controls=%d/%d wall=%.1fs' % (
         prop, tier, obligations, discharged, len(known_hits), len(new_viol), len(ctl_detected), len(ctl_expected), time.time() - t0))
